@@ -472,9 +472,16 @@ func c02Classify(f *c02Failure, min []byte) string {
 		if c02HasBoundWithRequired(min) {
 			return "struct-embeds-ordered-bound-and-required-field"
 		}
+		if c02NaNLiteral.Match(min) {
+			return "nan-literal-exponent-overflow"
+		}
 		return f.kind
 	}
 }
+
+// c02NaNLiteral: a number literal whose exponent has 19 or more digits (|exponent| >= 2^63
+// overflows and the literal silently evaluates to NaN)
+var c02NaNLiteral = regexp.MustCompile(`[0-9.][eE][+-]?[0-9]{19,}`)
 
 // c02HasBoundWithRequired: some struct literal (or the file) embeds an expression containing
 // an ordered bound (< <= > >=) and declares a regular required field (`b!:`).
